@@ -595,7 +595,7 @@ func (w *nodeWriter) writeIndex(n *wNode, rootAndIsAtEnd bool) error {
 	for i, o := range n.children {
 		tag := uint64(0xFE << 56)
 		if len(o.children) == 0 {
-			tag = resourceToTag(n.resources, o.tertiary)
+			tag = resourceToTag(n.resources, o.tertiary, n.codec.isLong())
 		}
 		putU64LE(buf[8*i:], dPtr|tag)
 		dPtr += o.dRangeSize
@@ -628,7 +628,7 @@ func (w *nodeWriter) writeIndex(n *wNode, rootAndIsAtEnd bool) error {
 		} else {
 			cOffsetCLength += w.indexCOffset
 		}
-		putU64LE(buf[8*i:], cOffsetCLength|resourceToTag(n.resources, o.secondary))
+		putU64LE(buf[8*i:], cOffsetCLength|resourceToTag(n.resources, o.secondary, n.codec.isLong()))
 	}
 	buf = buf[8*len(n.children):]
 
@@ -680,10 +680,15 @@ func calcCLength(primarySize int) uint64 {
 	return uint64(primarySize)
 }
 
-func resourceToTag(resources []int, r OptResource) uint64 {
+func resourceToTag(resources []int, r OptResource, codecIsLong bool) uint64 {
 	if r != 0 {
 		for i, res := range resources {
 			if res == int(r) {
+				if codecIsLong {
+					// The Codec Element occupies position 0, so that the
+					// resources start at position 1.
+					i++
+				}
 				return uint64(i) << 56
 			}
 		}
